@@ -105,6 +105,9 @@ structure DSt where
   sCases : Nat := 0
   sTypeKey : Nat := 0     -- S cases whose state holds a dictionary with an unregistered `type`
   sMods : Nat := 0
+  sTooDeep : Nat := 0
+  stateFileMax : Nat := 0
+  sRestored : Nat := 0
   sNumText : Nat := 0     -- S cases with a modified number whose config text does not read back identically
   wCases : Nat := 0
   kills : Nat := 0
@@ -266,7 +269,13 @@ def modattrModel (orc : NumOracle) (spec : V) : Option ((V × V × V) × (V × V
           | _ => none)
       | _ => []
     let fresh : Obj Tok := { fields := [("notes".toList, notes), ("vars".toList, vars)], original := none }
-    let ob := mods.foldl (fun o m => match modify o m.1 m.2 with | .ok o' => o' | .error _ => o) fresh
+    let restores : List Path := match dGet? "restore".toList kvs with
+      | some (.arr rs) => rs.filterMap (fun r => match r with
+          | .str a => some (splitDots a)
+          | _ => none)
+      | _ => []
+    let om := mods.foldl (fun o m => match modify o m.1 m.2 with | .ok o' => o' | .error _ => o) fresh
+    let ob := restores.foldl (fun o r => match restore o r with | .ok o' => o' | .error _ => o) om
     -- the script holds the dumped values as the config writer prints them (oracle); if one of them does not compile
     -- the whole file is rejected at start-up
     let ents := dumpModified ob
@@ -303,7 +312,14 @@ def handleS (d : DSt) (n : Nat) (sh : String) (post : List String) : IO DSt := d
         | [m] => (restoreMessage tokCodec known fresh m).map (·.fields)
         | _ => none
       let implAfter := dRemove typeKey sa
-      if modelAfter != some implAfter then
+      let tooDeep := decide (Icinga.C20.depth (JValue.obj sb) + 1 > Icinga.C20.jsonMaxNestingDepth)
+      if tooDeep then
+        d := { d with sTooDeep := d.sTooDeep + 1 }
+        -- the model refuses the whole record: the object must not have taken the deep value over
+        if modelAfter.isSome || dGet? "executions".toList sa == dGet? "executions".toList sb then
+          IO.println s!"MISMATCH line={n} case={d.caseNo} op=S what=record_beyond_nesting_limit_accepted"
+          d := { d with mismatches := d.mismatches + 1 }
+      else if modelAfter != some implAfter then
         IO.println s!"MISMATCH line={n} case={d.caseNo} op=S what=state_after_restore"
         d := { d with mismatches := d.mismatches + 1 }
       let hasType := !onlyKnownTypesM known o.fields
@@ -333,7 +349,9 @@ def handleS (d : DSt) (n : Nat) (sh : String) (post : List String) : IO DSt := d
         | .obj kvs => (match dGet? "__original_attributes".toList kvs with | some (.obj (_ :: _)) => true | _ => false)
         | _ => false
       if hasMods then d := { d with sMods := d.sMods + 1 }
-      match specRoundtrip (JValue.obj sb) (JValue.obj sa), cfgVerdict with
+      if (match unhexJson sh with | some (.obj kvs) => dHas "restore".toList kvs | _ => false) then
+        d := { d with sRestored := d.sRestored + 1 }
+      match specRestartState (JValue.obj sb) (JValue.obj sa), cfgVerdict with
       | none, none => pure ()
       | a, _ =>
         let tags := (if a.isSome && hasType then ["typekey"] else if a.isSome then ["state"] else []) ++
@@ -375,6 +393,10 @@ def handle (d : DSt) (n : Nat) (line : String) : IO DSt := do
   | ["S", sh] =>
     let d := closeCase d
     handleS { d with caseNo := d.caseNo + 1, inM := false, caseHash := hashStr 11 sh } n sh post
+  | ["B", _batch, _objs, bytes] =>
+    match parseNat? bytes with
+    | some b => return { d with stateFileMax := max d.stateFileMax b }
+    | none => return d
   | ["W", kind, cseed] =>
     let d := closeCase d
     let d := { d with caseNo := d.caseNo + 1, inM := false, caseHash := hashStr (hashStr 13 kind) cseed, wCases := d.wCases + 1,
@@ -440,4 +462,4 @@ def main : IO Unit := do
   let stdin ← IO.getStdin
   let d ← foldLines stdin handle ({} : DSt)
   let d := closeCase d
-  IO.println s!"STATS cases={d.caseNo} steps={d.steps} m_cases={d.mCases} modifies={d.mOps} restores={d.rOps} op_errors={d.mErr} restores_checked={d.rChecked} s_cases={d.sCases} s_typekey={d.sTypeKey} s_modattrs={d.sMods} s_numtext={d.sNumText} writes={d.wCases} kills={d.kills} kill_old={d.killOld} kill_new={d.killNew} fault_mkstemp={d.fMkstemp} fault_chmod={d.fChmod} fault_write={d.fWrite} fault_write_partial={d.fWritePartial} fault_fsync={d.fFsync} fault_close={d.fClose} fault_rename={d.fRename} fault_unlink={d.fUnlink} fault_none={d.fEnd} stale_tmp_seen={d.leftovers} stale_tmp_after_dump={d.leftoversAfter} nontrivial={d.nontrivial} mismatches={d.mismatches} specfails={d.specfails}"
+  IO.println s!"STATS cases={d.caseNo} steps={d.steps} m_cases={d.mCases} modifies={d.mOps} restores={d.rOps} op_errors={d.mErr} restores_checked={d.rChecked} s_cases={d.sCases} s_typekey={d.sTypeKey} s_modattrs={d.sMods} s_numtext={d.sNumText} s_too_deep={d.sTooDeep} s_restored_before_dump={d.sRestored} state_file_max_bytes={d.stateFileMax} writes={d.wCases} kills={d.kills} kill_old={d.killOld} kill_new={d.killNew} fault_mkstemp={d.fMkstemp} fault_chmod={d.fChmod} fault_write={d.fWrite} fault_write_partial={d.fWritePartial} fault_fsync={d.fFsync} fault_close={d.fClose} fault_rename={d.fRename} fault_unlink={d.fUnlink} fault_none={d.fEnd} stale_tmp_seen={d.leftovers} stale_tmp_after_dump={d.leftoversAfter} nontrivial={d.nontrivial} mismatches={d.mismatches} specfails={d.specfails}"
